@@ -72,6 +72,10 @@ func (s *DiscoveryService) Start(ctx context.Context) error {
 			Type:            s.registryConfig.Type,
 			EnableUnifier:   s.registryConfig.EnableUnifier,
 			UnificationConf: &s.registryConfig.Unification,
+			// without these the registry silently falls back to the strict strategy,
+			// whatever model_registry.routing_strategy says
+			RoutingStrategy: &s.registryConfig.RoutingStrategy,
+			Discovery:       s,
 		}
 		var err error
 		s.registry, err = registry.NewModelRegistry(registryConfig, s.logger)
